@@ -493,7 +493,8 @@ def fn_impl(op):
 # ---------------------------------------------------------------------------------------
 IRRELEVANT_LABELS = ["www", "WWW", "www2", "www9", "m", "M", "mobile", "Mobile", "amp", "AMP"]
 LOOKALIKE_LABELS = ["forum-m", "wwwx", "www22", "m-a", "xm", "mm", "amp-", "ampx", "wwww", "mobile2", "xn--m-bja", "xn--9ca", "am", "w", "amp-x",
-                    "amp-www", "amp-xn--tlrama-bvab", "amp-amp-a", "x-www", "www-1"]
+                    "amp-www", "amp-xn--tlrama-bvab", "amp-amp-a", "x-www", "www-1", "ww", "ww2", "mobil", "mobiles", "wwwm", "mwww", "amp2",
+                    "wap", "web", "www_", "m_"]
 LANG_LABELS = ["fr", "FR", "en", "us", "fr-fr", "fr-FR", "en-us", "pt-br", "zh-cn"]
 NON_LANG_LABELS = ["xx", "zz", "fra", "f", "fr-xx", "xx-fr", "fr_fr", "fr-f", "f-fr", "frfr", "fr-fra", "en-u", "q1"]
 BASE_DOMAINS = ["a.com", "example.com", "lemonde.fr", "example.co.uk", "blog.example.co.uk", "xn--tlrama-bvab.fr", "télérama.fr",
@@ -515,6 +516,10 @@ TRACKING_ITEMS = [
     ["usqp", "1"], ["wpamp", None], ["_rdr", None], ["_rdc", "1"], ["t", "1"], ["si", "x"], ["ab_channel", "x"], ["gl", "fr"], ["hl", "en"], ["GL", "fr"],
     ["r%65f", "fb"], ["%75tm_source", "1"], ["utm%5Fsource", "1"], ["fbclid%20", "1"], ["ref", "f%62"], ["s", "%31"], ["fbclid\n", "1"],
     ["utm_source", "a=b"], ["__twitter_impression", "true"], ["feature", "share"], ["echobox", "1"], ["cn-reloaded", "1"],
+    # look-alikes of tracking keys: must be kept
+    ["x_fbclid", "1"], ["my_sid", "1"], ["a_utm_source", "1"], ["not_gclid", "1"], ["xfbclid", "1"], ["fbclidx", "1"], ["sidx", "1"],
+    ["utmsource", "1"], ["x_ref", "fb"], ["refx", "fb"], ["xs", "1"], ["ss", "12"], ["mm", "1"], ["x-amp", "1"], ["ampx", "1"], ["_amp", "1"],
+    ["x_usqp", "1"], ["fbclid_x", "1"], ["ga", "1"], ["utm", None], ["sessionidx", "1"], ["xsid", "1"], ["feature2", "x"],
 ]
 PLAIN_ITEMS = [["a", "1"], ["b", "2"], ["a", "2"], ["a", None], ["a", ""], ["", None], ["", ""], ["B", "1"], ["é", "1"], ["%C3%A9", "1"], ["z", "%41"],
                ["id", "10"], ["page", "2"], ["q", "x y"], ["q", "x+y"], ["k", "a=b"], ["a%26b", "1"], ["%41", "1"], ["A", "1"]]
